@@ -46,6 +46,7 @@ func runC07(w *World) {
 			g.keys = []string{"k1", "k2"}
 			g.freeIDs = []string{"a", "b"}
 			g.exVals = []string{"0.3", "1", "100"}
+			g.wBad = 4
 			if nodl {
 				g.exVals = nil
 				g.wExpire = 0
